@@ -38,7 +38,7 @@ type Pools struct {
 	TagNames []string
 }
 
-var topSegs = []string{"assets", "expenses", "income", "liabilities", "equity", "Assets", "Expenses", "misc", "x", "активы", "projects"}
+var topSegs = []string{"assets", "expenses", "petty cash", "income", "liabilities", "equity", "Assets", "Expenses", "misc", "x", "активы", "projects"}
 var subSegs = []string{"cash", "food", "bank checking", "card1", "чек", "наличные", "opening balances", "Salary", "a", "B2", "y😀z", "rent", "café", "long account segment name"}
 var symPool = []string{"$", "€", "EUR", "USD", "AAPL", "AB C", "ACME Inc.", "£"}
 var payeePool = []string{"shop", "Whole Foods", "café", "Ашан", "grocery store", "x", "landlord", "bakery 😀"}
@@ -356,6 +356,9 @@ func GenPosting(t *rapid.T, p *Profile, pools *Pools, o TxOpts) *m.Posting {
 			po.CSep = "  " // an account is ended by two blanks
 		}
 	}
+	if !p.off("line.trailing-blanks") && rapid.IntRange(0, 5).Draw(t, "ptrail") == 0 {
+		po.Trail = rapid.SampledFrom([]string{" ", "  ", "\t", "   "}).Draw(t, "ptrailv")
+	}
 	return po
 }
 
@@ -410,6 +413,9 @@ func GenTx(t *rapid.T, p *Profile, pools *Pools, o TxOpts) *m.Tx {
 			tx.Body = append(tx.Body, m.BodyItem{C: GenComment(t, p, pools, !p.off("comment.indented-tag")), Indent: rapid.SampledFrom([]string{"    ", "  "}).Draw(t, "cind")})
 		}
 		tx.Body = append(tx.Body, m.BodyItem{P: GenPosting(t, p, pools, o)})
+	}
+	if !p.off("line.trailing-blanks") && rapid.IntRange(0, 7).Draw(t, "htrail") == 0 {
+		tx.Trail = rapid.SampledFrom([]string{" ", "  ", "\t"}).Draw(t, "htrailv")
 	}
 	return tx
 }
